@@ -1,14 +1,15 @@
 SPECIFICATION Spec
 CONSTANTS
-  InsSeq <- Ins2
+  InsSeq <- Ins3
   Flushers = {"f"}
   Closer = "c"
-  Tables = {"t1", "t2"}
+  Tables = {"t1"}
   LocSeq <- Loc2
   FreeLocs = FALSE
   BatchSizes = {1, 2, 3}
-  PerIns = 2
+  PerIns = 1
   PerFl = 1
   LockScope = "code"
 VIEW View
 INVARIANTS TypeOK OnlyRacesHurt NeverTwice LocInternOK TxnOwner EmitCase
+PROPERTY Terminates
